@@ -496,6 +496,7 @@ theorem inv_core {s s' : St} {e : Ev} (hI : Inv s) (hw : e.wf = true) (h : core 
   | wState k g v fn => simp [Ev.wf] at hw; exact inv_wState hI hw h
   | switch k g => simp [Ev.wf] at hw; exact inv_switch hI hw h
   | destroy k g => exact inv_destroy hI h
+  | touch k g => simp only [core] at h; split at h <;> simp at h; subst h; exact hI
 
 theorem inv_step {s s' : St} {e : Ev} (hI : Inv s) (h : step s e = some s') : Inv s' := by
   obtain ⟨hw, hc⟩ := step_core h
@@ -565,6 +566,9 @@ theorem eff_of_step {s s' : St} {e : Ev} (h : step s e = some s') : Eff s s' e :
     · exact Or.inl h1
     · exact Or.inr ⟨h1.1, h1.2.1⟩
   | destroy k g =>
+    simp only [core] at h; split at h <;> simp at h; subst h
+    simp [Eff]
+  | touch k g =>
     simp only [core] at h; split at h <;> simp at h; subst h
     simp [Eff]
 
@@ -884,6 +888,7 @@ theorem hist_token {s s' : St} {es : List Ev} {e : Ev} (hH : Hist s es)
   | spawn => simp only [Eff] at hE; simp [isPush, isTake, hE.1]; omega
   | tick => simp only [Eff] at hE; simp [isPush, isTake, hE.1]; omega
   | destroy k x => simp only [Eff] at hE; simp [isPush, isTake, hE.1]; omega
+  | touch k x => simp only [Eff] at hE; simp [isPush, isTake, hE.1]; omega
 
 theorem hist_fresh {s s' : St} {es : List Ev} {e : Ev} (hI : Inv s) (hH : Hist s es)
     (hs : step s e = some s') (g : Nat) (hn : s'.ctx g = .none) :
@@ -1015,6 +1020,10 @@ theorem hist_wake {s s' : St} {es : List Ev} {e : Ev} (hI : Inv s) (hH : Hist s 
     simp only [Eff] at hE; rw [hE.2.2] at htr
     have h0 := hH.wake g htr
     simp [isWake, isSwitch, places, hE.1, hE.2.1] at h0 ⊢; omega
+  | touch k x =>
+    simp only [Eff] at hE; rw [hE.2.2] at htr
+    have h0 := hH.wake g htr
+    simp [isWake, isSwitch, places, hE.1, hE.2.1] at h0 ⊢; omega
 
 theorem popHand_none {s : St} (hI : Inv s) {g : Nat} (hn : s.ctx g = .none) (k : Nat) :
     popHand g (s.tpc k) = 0 := by
@@ -1139,6 +1148,10 @@ theorem hist_pops {s s' : St} {es : List Ev} {e : Ev} (hI : Inv s) (hH : Hist s 
     simp only [Eff] at hE; rw [hE.2.2] at htr
     have h0 := hH.pops g k htr
     simp [isPopBy, isSwitchBy, isRequeueBy, hE.2.1]; omega
+  | touch k' x =>
+    simp only [Eff] at hE; rw [hE.2.2] at htr
+    have h0 := hH.pops g k htr
+    simp [isPopBy, isSwitchBy, isRequeueBy, hE.2.1]; omega
 
 theorem hist_step {s s' : St} {es : List Ev} {e : Ev} (hI : Inv s) (hH : Hist s es)
     (hs : step s e = some s') : Hist s' (es ++ [e]) := by
@@ -1176,7 +1189,7 @@ theorem cur_runFrom {s s2 : St} {mid : List Ev} {k : Nat} (h : sys.runFrom s mid
       have h2 := cur_step (k := k) hst (fun x hx => hno x (by simp [hx]))
       rw [h1, h2]
 
-/-- the events that name fiber g -/
+/-- the events that name fiber g (`touch` = any access to another field of its control block) -/
 def mentions (g : Nat) : Ev → Bool
   | .create _ x => x == g
   | .rqpush _ _ x _ => x == g
@@ -1186,6 +1199,7 @@ def mentions (g : Nat) : Ev → Bool
   | .wState _ x _ _ => x == g
   | .switch _ x => x == g
   | .destroy _ x => x == g
+  | .touch _ x => x == g
   | _ => false
 
 theorem ctx_step {s s' : St} {e : Ev} (hI : Inv s) (h : step s e = some s') (g : Nat)
@@ -1263,6 +1277,9 @@ theorem dead_step {s s' : St} {e : Ev} {g : Nat} (hI : Inv s) (hd : s.ctx g = .d
         next hg =>
           have := hI.winC k (by simp [hg.2.2.2.2.2.2])
           rw [← hg.1, hd] at this; simp at this
+      | touch k x =>
+        simp [mentions] at hm; subst hm
+        simp only [core] at hc; simp [hd] at hc
       | spawn => simp [mentions] at hm
       | tick => simp [mentions] at hm
   refine ⟨?_, hm⟩
